@@ -83,9 +83,26 @@ def restructure():
         deep = [i for i in its if len(i[2]) > 1]
         pool = deep if deep and draw(st.integers(0, 3)) else its
         start, end, parents = draw(st.sampled_from(pool))
-        op = draw(st.sampled_from(["dup", "dup", "del", "move", "transplant", "transplant"]))
+        op = draw(st.sampled_from(["dup", "dup", "del", "move", "transplant", "transplant", "into-pc", "into-pc"]))
         seg = bytes(b[start:end])
         delta = 0
+        if op == "into-pc":
+            # a well-formed item that is neither an abstract nor a transfer syntax sub-item (application context, user information and
+            # its sub-items, a whole presentation context) placed among the sub-items of a presentation context item
+            foreign = [i for i in its if b[i[0]] not in (0x30, 0x40)]
+            inside = [i for i in its if len(i[2]) > 1 and b[i[2][-1][0] - 2] in (0x20, 0x21)]
+            if not foreign or not inside:
+                return bytes(b), ["restructure-none"]
+            start, end, parents = draw(st.sampled_from(foreign))
+            seg = bytes(b[start:end])
+            tgt = draw(st.sampled_from(inside))
+            at = tgt[1] if draw(st.booleans()) else tgt[0]
+            b[at:at] = seg
+            for off, size in tgt[2]:
+                cur = int.from_bytes(b[off : off + size], "big") + len(seg)
+                if 0 <= cur < (1 << (8 * size)):
+                    b[off : off + size] = cur.to_bytes(size, "big")
+            return bytes(b), [f"restructure-transplant-{seg[0]:02x}-into-pc"]
         if op == "transplant":
             # a well-formed item of a valid type inside the wrong container (e.g. a transfer syntax sub-item in the
             # user information item, an application context item inside a presentation context)
